@@ -41,20 +41,33 @@ CLAIMED = {
               "harness proves new+set establish/preserve that predicate.")),
     "C04": dict(
         design_ref="DESIGN.md §4 C04",
-        text=("Bounded model checking of the DSet trait's provided methods morphism / automorphisms / degrees_match_in "
-              "(the real generic code) instantiated for an array-backed implementor defined in the harness: for EVERY "
-              "connected complete symbol of the shape (every tuple of involutions, every degree function <= 3 constant "
-              "on 2-orbits) and EVERY base image (out-of-range ones included), Some(map) is a morphism with that base "
-              "image (commutes with every operation, preserves every degree) and None means no morphism exists "
-              "(decided against a fully symbolic candidate map); automorphisms() lists exactly the automorphisms, "
-              "each once. Self-maps of 2..4 chambers in dimension 2 and 3..4 chambers in dimension 3, source != "
-              "target up to 2x2, automorphism list of 2..3 chambers (quick); 5 chambers, 3x2, 4x2, 3x3, list of 4 "
-              "(thorough). PARTIAL: fold / is_minimal / minimal_image (union-find over a HashMap index) and the "
-              "statement about covers are NOT decided."),
-        note=("Decided: the automorphism / morphism-search sentence of C04 for one instantiation of the generic code "
-              "(ArrSym<N, D1>: size/dim/op/m read fixed arrays). Not decided: minimal image, minimality test, "
-              "uniqueness of the smallest quotient, covers; other implementors of DSet only through the generic code "
-              "they share.")),
+        engine="gen4",
+        quick_cmd="python3 engine/gen4.py check --tier quick",
+        thorough_cmd="python3 engine/gen4.py check --tier thorough",
+        replay="python3 engine/gen4.py replay {path}",
+        technique=("two parts, one evidence file: (1) bounded symbolic execution (Kani codegen -> CBMC, engine kc) of the "
+                   "DSet trait's provided methods morphism / automorphisms instantiated for an array-backed implementor; "
+                   "(2) minimal_image / is_minimal executed from the current tree on every 2D symbol and cover of a "
+                   "bounded universe, decided by SMT (z3 QF_BV) over symbolic maps and symbolic PARTITIONS: "
+                   "sat(morphism onto the image), unsat(proper degree-respecting congruence on the image), the same "
+                   "query on the symbol vs is_minimal(), sat(isomorphism of the minimal images of a symbol and its cover)"),
+        text=("(1) Bounded model checking of DSet::morphism / automorphisms / degrees_match_in (the real generic code) "
+              "instantiated for an array-backed implementor defined in the harness: for EVERY connected complete symbol "
+              "of the shape (every tuple of involutions, every degree function <= 3 constant on 2-orbits) and EVERY "
+              "base image (out-of-range ones included), Some(map) is a morphism with that base image and None means "
+              "no morphism exists (decided against a fully symbolic candidate map); automorphisms() lists exactly the "
+              "automorphisms, each once. Self-maps of 2..4 chambers in dimension 2 and 3..4 chambers in dimension 3, "
+              "source != target up to 2x2, automorphism list of 2..3 chambers (quick); 5 chambers, 3x2, 4x2, 3x3, list "
+              "of 4 (thorough). (2) For every 2D symbol the D-symbol generator yields on D-sets of at most 4 (thorough: "
+              "5) chambers and every cover of covers(symbol, 2 (3)) — 236 symbols, 1237 minimal images — the real "
+              "minimal_image and is_minimal are run; the solver decides that the input maps onto its minimal image by "
+              "a degree-preserving morphism, that the image admits NO proper degree-respecting congruence (over all "
+              "symbolic partitions: no proper quotient, hence its size is the number of classes of the coarsest "
+              "congruence), that is_minimal() is true exactly when the symbol itself admits none, and that a symbol "
+              "and each of its covers have isomorphic minimal images. Outside the claim: larger symbols, 3D symbols "
+              "for part (2), other implementors of DSet for part (1) beyond the generic code they share."),
+        note=("Part (2): input symbols are enumerated (checked output of the generators of C06 / C07 and of covers(), "
+              "C05), not symbolic; the solver's for-all is over partitions of the chambers and over maps.")),
     "C05": dict(
         design_ref="DESIGN.md §4 C05",
         engine="gen5",
@@ -279,7 +292,7 @@ def main():
             "engine": c.get("engine", "kc"),
             "level_claimed": {"category": "model_checking", "text": c["text"],
                               "design_ref": c["design_ref"]},
-            "level_note": c["note"] + ("" if (c.get("engine") and pid != "C05") else LEVEL_NOTE_COMMON),
+            "level_note": c["note"] + ("" if (c.get("engine") and pid not in ("C04", "C05")) else LEVEL_NOTE_COMMON),
             "technique": c.get("technique", TECH),
         })
     na = dict(NOT_APPLICABLE)
@@ -301,7 +314,7 @@ def main():
         "engines": [{
             "name": "kc",
             "path": "engine/kc.py",
-            "serves_properties": sorted(k for k in CLAIMED if not CLAIMED[k].get("engine") or k == "C05"),
+            "serves_properties": sorted(k for k in CLAIMED if not CLAIMED[k].get("engine") or k in ("C04", "C05")),
             "kind_free_text": "Kani 0.68 code generation of the real crate + own goto-cc/goto-instrument link "
                               "against a fixed-block allocator model + CBMC 6.11 (CaDiCaL / z3), witness "
                               "extraction and native replay",
@@ -311,6 +324,13 @@ def main():
             "serves_properties": ["C06"],
             "kind_free_text": "native run of the input-free generator from the current tree + SMT-LIB (QF_BV) queries over "
                               "the universe of D-sets and over bijections, z3 with cvc5 cross-check, native replay",
+        }, {
+            "name": "gen4",
+            "path": "engine/gen4.py",
+            "serves_properties": ["C04"],
+            "kind_free_text": "runs kc on harness/c04_morphism.rs (symbolic execution of morphism / automorphisms) and, natively, "
+                              "minimal_image / is_minimal on every 2D symbol and cover of a bounded universe with SMT-LIB (QF_BV) "
+                              "queries over partitions and maps; one evidence file",
         }, {
             "name": "gen5",
             "path": "engine/gen5.py",
